@@ -91,7 +91,8 @@ class Registry:
             self.units.append(c)
         return c
 
-    def shape(self, name, cls=None, fields=None, methods=None, base=None, ghost=False, heap_base=None, isa=()):
+    def shape(self, name, cls=None, fields=None, methods=None, base=None, ghost=False, heap_base=None, isa=(),
+              absent_none=()):
         f, m = {}, {}
         if base:
             f.update(self.shapes[base].fields)
@@ -101,6 +102,9 @@ class Registry:
         m.update(methods or {})
         self.shapes[name] = Shape(name, cls, f, m, ghost, heap_base)
         self.shapes[name].isa = tuple(isa)      # builtin classes an instance of a class-less shape belongs to
+        # fields whose "attribute not set yet" state is represented by None (hasattr() is then `value is not None`;
+        # sound when the code never assigns None while relying on hasattr, stated per shape in the assumptions)
+        self.shapes[name].absent_none = tuple(absent_none)
         return self.shapes[name]
 
     def external(self, name, fn, pure=False):
